@@ -31,7 +31,7 @@ import (
 )
 
 type step struct {
-	Op string `json:"op"` // reply | late | dup | coordreq | hb | loss | wave
+	Op string `json:"op"` // reply | late | dup | coordreq | coordreq0 | hb | loss | wave
 	C  int    `json:"c,omitempty"`
 }
 
@@ -83,6 +83,8 @@ type run struct {
 	parked   bool
 	skipped  bool
 	seq      bool // start the callers one after the other (ids in caller order)
+	misc     *caller // carrier of the history of messages that belong to no caller
+	extra    []int32 // ids of coordinator requests that collide with nothing
 }
 
 var (
@@ -99,7 +101,7 @@ var (
 const (
 	grace       = 100 * time.Millisecond
 	rpcTimeout  = 20 * time.Second
-	timeoutSlop = 5 * time.Second
+	timeoutSlop = 15 * time.Second
 )
 
 func okRes(tag string) message.AbstractTransactionResponse {
@@ -271,6 +273,16 @@ func (r *run) advance() {
 			return
 		}
 		r.pos++
+		if st.Op == "coordreq0" {
+			// a coordinator request with an id of the coordinator's own id space that no client request uses:
+			// the client's response to it must not leave anything behind either
+			id := int32(1<<24 + r.i*4 + len(r.extra))
+			r.extra = append(r.extra, id)
+			body := message.BranchCommitRequest{AbstractBranchEndRequest: message.AbstractBranchEndRequest{
+				Xid: "10.0.0.1:8091:98", BranchId: int64(id), BranchType: branch.BranchTypeTCC, ResourceId: "c14", ApplicationData: []byte("{}")}}
+			r.deliver("CoordReq", "coordreq0", r.misc, message.RpcMessage{ID: id, Type: message.GettyRequestTypeRequestSync, Codec: 1, Body: body})
+			continue
+		}
 		c := r.callers[st.C-1]
 		switch st.Op {
 		case "reply", "late", "dup":
@@ -311,6 +323,11 @@ func (r *run) advance() {
 			if r.skipped {
 				return
 			}
+			if lastHB.Load() != c.id {
+				// the heartbeat ids jumped over the pending id (they do not come from a counter of their own):
+				// no collision can be produced, the schedule goes on without one
+				continue
+			}
 			r.deliver("Pong", "pong", c, message.RpcMessage{ID: c.id, Type: message.GettyRequestTypeHeartbeatResponse, Codec: 1, Body: message.HeartBeatMessagePong})
 		}
 	}
@@ -342,6 +359,11 @@ func (r *run) quiesce(patience time.Duration) {
 	pending := 0
 	for _, c := range r.callers {
 		if sgetty.GetGettyRemotingClient().GetMessageFuture(c.id) != nil {
+			pending++
+		}
+	}
+	for _, id := range r.extra {
+		if sgetty.GetGettyRemotingClient().GetMessageFuture(id) != nil {
 			pending++
 		}
 	}
@@ -422,6 +444,9 @@ func randomScenario(rnd *rand.Rand) scenario {
 	answered := perm[ndrop:]
 	var replied []int
 	for _, c := range answered {
+		if rnd.Intn(12) == 0 {
+			sc.Steps = append(sc.Steps, step{Op: "coordreq0"})
+		}
 		if rnd.Intn(6) == 0 {
 			sc.Steps = append(sc.Steps, step{"coordreq", c + 1})
 		}
@@ -518,6 +543,11 @@ func main() {
 		}
 	}
 	nTLC := len(scs)
+	// a coordinator request whose id collides with nothing (ids of the coordinator's own id space)
+	scs = append(scs,
+		scenario{Cn: 1, Steps: []step{{Op: "coordreq0"}, {"reply", 1}}},
+		scenario{Cn: 2, Steps: []step{{"reply", 1}, {Op: "coordreq0"}, {"reply", 2}}},
+		scenario{Cn: 1, Steps: []step{{"reply", 1}, {Op: "coordreq0"}}})
 	nRand := 100
 	if o.Thorough() {
 		nRand = 1000
@@ -535,7 +565,7 @@ func main() {
 		if !o.Want(i) {
 			continue
 		}
-		r := &run{i: i, sc: sc}
+		r := &run{i: i, sc: sc, misc: &caller{}}
 		r.t = w.Begin(map[string]interface{}{"i": i, "sc": sc}, classOf(sc))
 		vr := rand.New(rand.NewSource(o.Seed*104729 + int64(i)))
 		for c := 1; c <= sc.Cn; c++ {
@@ -560,7 +590,7 @@ func main() {
 	}
 	// 2. everything else
 	pool := func(rs []*run, f func(r *run)) {
-		sem := make(chan struct{}, 32)
+		sem := make(chan struct{}, 128)
 		var wg sync.WaitGroup
 		for _, r := range rs {
 			wg.Add(1)
